@@ -23,6 +23,8 @@ theorem factor_sound (o : Oracle σ) (fuel n : Nat) (alg : Algo) (os : σ) (l : 
     injection h with h; subst h
     exact ⟨by simp, by simp, fun _ => rfl, fun h => by omega⟩
   · simp only [h0, if_false] at h
+    split at h
+    · exact absurd h (by simp)
     split at h <;> try (exact absurd h (by simp))
     rename_i s _
     have key : ∀ fs : List Nat, checkProduct n fs = Out.ok l →
